@@ -24,6 +24,13 @@ CLAIMED['C12'] = (
     '(rendered by asm2c, compared with the real instructions natively on every run). Bounds: valid (l,Bgbit) grid, N<=4 scalar, N in {8,16} AVX2.',
     TRUST + '; asm2c rendering of the three AVX2 loops', 'bounded symbolic execution (clang IR + inline asm -> C -> CBMC) + SAT portfolio', 'DESIGN.md section 4, C12')
 
+CLAIMED['C11'] = (
+    'All coefficient vectors symbolic: schoolbook and Karatsuba products (plain, accumulate, subtract) equal an independent negacyclic '
+    'convolution mod 2^32 for N in {1,2,4,8,16} (quick; 16 is the first size at which Karatsuba recurses) and 32 (thorough); X^a and '
+    'X^a-1 multiplication for every a in [0,2N) (symbolic for N<=4, enumerated for N=8,16) against an index/sign formula; group laws '
+    'X^a X^b = X^(a+b mod 2N), X^N=-1; ten coefficient-wise routines with symbolic scalar p (INT32_MIN included), N<=8.',
+    TRUST, 'bounded symbolic execution (clang IR -> C -> CBMC) + SAT/SMT portfolio (cvc5 integer encoding proves ring identities, SAT refutes)', 'DESIGN.md section 4, C11')
+
 NOT_APPLICABLE = {
     'C02': 'statistical claim (mean/stdev/tail of the phase error of the real FFT pipeline at N=1024): a solver decides for-all/exists and the for-all version is false; its deterministic mechanisms are decided under C12, C08, C07, C19, C01',
     'C10': 'double-precision rounding error of 2048-point FFTs, three of five back-ends being hand-written AVX/FMA assembly or FFTW: bit-precise FP is out of solver reach beyond N~2 and a sound real-arithmetic over-approximation exceeds the stated 2 units',
